@@ -789,16 +789,18 @@ fn c08_cases(quick: bool) -> Vec<Case> {
     out
 }
 
-/// Engine-order first answer of a head run alone (state-level differential oracle).
-fn head_first(case: &Case, head: &Tr) -> (Option<Trace>, Stop) {
+/// Engine-order first answer of a head run alone (state-level differential oracle); built
+/// with the same constructors (`alt`) as the whole program, since the order in which an
+/// interleaving disjunction delivers its answers may depend on how it was constructed.
+fn head_first(case: &Case, head: &Tr, alt: bool) -> (Option<Trace>, Stop) {
     let c = Case { tree: head.clone(), leaves: case.leaves.clone() };
-    let out = run_case(&c, false, false, 1, 20_000);
+    let out = run_case(&c, false, alt, 1, 20_000);
     (out.answers.first().cloned(), out.stop)
 }
 
-fn head_all(case: &Case, head: &Tr) -> (Vec<Trace>, Stop) {
+fn head_all(case: &Case, head: &Tr, alt: bool) -> (Vec<Trace>, Stop) {
     let c = Case { tree: head.clone(), leaves: case.leaves.clone() };
-    let out = run_case(&c, false, false, 50, 20_000);
+    let out = run_case(&c, false, alt, 50, 20_000);
     (out.answers, out.stop)
 }
 
@@ -807,7 +809,8 @@ fn check_c08(case: &Case, index: usize) -> CaseOut {
     let mut o = CaseOut { viols: vec![], hist: vec![], steps: 0, states: 0, transitions: 0 };
     // odd cases use the alternative build (`onceo { a, b }` as two clauses instead of one
     // bracketed clause `onceo { [a, b] }`)
-    let out = run_case(case, false, index % 2 == 1, 40, 60_000);
+    let alt = index % 2 == 1;
+    let out = run_case(case, false, alt, 40, 60_000);
     o.steps += out.steps;
     if let Stop::Panic(m) = &out.stop {
         o.viols.push(mk("panic", "c08-e4", index, case, m.clone(), panic_site(m)));
@@ -827,7 +830,7 @@ fn check_c08(case: &Case, index: usize) -> CaseOut {
     }
     let exp: Exp = match &case.tree {
         Tr::Onceo(x) => {
-            let (first, stop) = head_first(case, x);
+            let (first, stop) = head_first(case, x, alt);
             match first {
                 Some(f) => Exp::Finite(vec![f]),
                 None => {
@@ -842,7 +845,7 @@ fn check_c08(case: &Case, index: usize) -> CaseOut {
         Tr::Condu(cl) => {
             let mut e = Exp::Finite(vec![]);
             for (h, r) in cl {
-                let (first, stop) = head_first(case, h);
+                let (first, stop) = head_first(case, h, alt);
                 if let Some(f) = first {
                     e = Exp::Finite(rest_answers(r, &f));
                     break;
@@ -857,7 +860,7 @@ fn check_c08(case: &Case, index: usize) -> CaseOut {
         Tr::Conda(cl) => {
             let mut e = Exp::Finite(vec![]);
             for (h, r) in cl {
-                let (hs, stop) = head_all(case, h);
+                let (hs, stop) = head_all(case, h, alt);
                 if !hs.is_empty() {
                     let mut all = vec![];
                     for t in &hs {
